@@ -1,8 +1,8 @@
 \* page layout as coded with PAGE 0,w: TLC must report LinesFit violated (WidthNeedsLength): every physical line fits the width, every page that was not ended by a
 \* chapter break holds exactly the page length
-CONSTANTS Mode = "page" MaxSteps = 7 MaxAddr = 1 MaxLen = 1 Gran = 1 RetractMode = "none"
+CONSTANTS Modes = {"page"} StepsUsage = 1 StepsXref = 1 StepsSect = 1 StepsPage = 3 MaxAddr = 1 MaxLen = 1 Gran = 1 RetractMode = "none"
   Keys = {"a"} MainFile = "m" IncFiles = {} MaxLineNo = 1 SectNames = {"X"} MaxDepth = 1
-  PageLens = {0, 2} PageWidths = {0, 3, 4} MaxLine = 9 HeaderLen = 7 Fixed = FALSE
+  PageLens = {0, 2} PageWidths = {0, 3, 4} LineLens = {0, 3, 4, 5, 9} HeaderLen = 7 Fixed = FALSE
 SPECIFICATION Spec
 INVARIANTS LinesFit PagesFull
 CHECK_DEADLOCK FALSE
